@@ -132,7 +132,8 @@ def processLine (prop : String) (line : String) : String := Id.run do
       let oc : Oracle.Case := {
         prop, op, variant, ints, fmt := f,
         inp := xin.map xqToOpt, cls := impl.cls, label := impl.label,
-        out := (implVals.map xqToOpt).toArray, flags := impl.flags }
+        out := (implVals.map xqToOpt).toArray, flags := impl.flags,
+        exact := (ex.vals.map xqToOpt).toArray, exactCls := ex.cls }
       let orc := match Oracle.oracle oc with
         | none => "skip"
         | some [] => "pass"
